@@ -215,6 +215,17 @@ class Ctx:
         return self.solver.check() != z3.unsat
 
 
+def _raised_in_code_under_test(e):
+    from .z3env import REPO_SRC
+
+    tb = e.__traceback__
+    last = None
+    while tb is not None:
+        last = tb
+        tb = tb.tb_next
+    return last is not None and last.tb_frame.f_code.co_filename.startswith(REPO_SRC)
+
+
 def _has_quantifier(e):
     todo, seen = [e], set()
     while todo:
@@ -256,6 +267,11 @@ def explore(run_one, unit_name="", max_paths=MAX_PATHS, props=()):
         except BaseException as e:
             if type(e).__name__ == "ExtractionError":
                 end, err = "unsupported", f"extraction refused: {e}"
+            elif ctx.dead is None and ((isinstance(e, (NameError, TypeError, AttributeError)) and _raised_in_code_under_test(e))
+                                       or (isinstance(e, TypeError) and any(w in str(e) for w in ("positional argument", "keyword argument", "takes ")))):
+                # the code under contract uses a stub / proxy in a way the sidecar does not describe (new callee, other
+                # signature, native iteration of a symbolic value): no contract applies - undecided, not a crash
+                end, err = "unsupported", f"code no longer matches the sidecar's contracts: {type(e).__name__}: {e}"
             elif ctx.dead is not None:
                 d = ctx.dead
                 if isinstance(d, PathEnd):
